@@ -360,7 +360,9 @@ Definition wf_field (f : field) : Prop :=
 (* one observed ConfigOptions::set / TableOptions::set: configuration id, key, printed value of the key
    before (None = entry without text or unlisted key), value text, accepted?, printed value after *)
 Inductive c43_case :=
-| CSet (cfg : Z) (key : list Z) (pre : option (list Z)) (txt : list Z) (accepted : bool) (post : option (list Z)).
+| CSet (cfg : Z) (key : list Z) (pre : option (list Z)) (txt : list Z) (accepted : bool) (post : option (list Z))
+(* a key that entries() does not list: only acceptance is observed *)
+| CAcc (cfg : Z) (key : list Z) (txt : list Z) (accepted : bool).
 
 Definition row_field (r : text * bool * dom) : field :=
   {| fkey := fst (fst r); flen := snd (fst r); fdom := snd r; fval := None |}.
@@ -387,5 +389,10 @@ Definition c43_check (tbl_of : Z -> list (text * bool * dom)) (c : c43_case) : b
           | Some cur => let (ok, v') := fset d cur (bs txt) in
                         Bool.eqb ok accepted && otext_eqb (option_map (print d) v') post
           end
+      end
+  | CAcc cfg key txt accepted =>
+      match resolve (tbl_of cfg) (bs key) with
+      | None => negb accepted
+      | Some d => Bool.eqb (match parse d (bs txt) with Some _ => true | None => false end) accepted
       end
   end.
